@@ -1224,6 +1224,17 @@ def oracle_pure(case, rec):
                     r = R.pearson(X[tm:tm + cr, i], X[t:t + cr, j])
                     ref[t, i, j] = 0.0 if math.isnan(r) else r
         rec.close(pa, ref, "pure_cc_all_value" + sfx, rtol=TOL)
+        # the same series at a level that dwarfs their fluctuations: this
+        # implementation removes the window mean in double precision before
+        # anything is stored in single precision, so the correlations stay
+        # (the compiled one stores first and is not held to this)
+        okL, pl = rec.call("pure_cc_all_call_high_level",
+                           PP(X + 1e6).cross_correlation, tau_max=tm,
+                           lag_mode="all")
+        if okL:
+            rec.close(np.asarray(pl, dtype=np.float64), ref,
+                      "pure_cc_all_value_high_level" + sfx, rtol=0,
+                      atol=1e-5)
         # differential: compiled kernel on the matching windows
         comp = np.zeros_like(ref)
         good = True
